@@ -22,6 +22,8 @@ PY
 cd "$PKG" || exit 2
 $GO126 test -c -tags verif -overlay "$OV" -o "$B/worker.new" . || exit 2
 mv "$B/worker.new" "$B/worker"
+(cd "$REPO_ROOT/src/calcHermesBatch" && go build -o "$B/calcbatch.new" . ) || exit 2
+mv "$B/calcbatch.new" "$B/calcbatch"
 if [ "${VERIF_BUILD_RACE:-1}" = 1 ]; then
   CGO_ENABLED=1 $GO126 test -c -race -tags verif -overlay "$OV" -o "$B/worker-race.new" . || exit 2
   mv "$B/worker-race.new" "$B/worker-race"
